@@ -66,11 +66,11 @@ def case_payload(c: Case, impl: Optional[Trace], model: Optional[Trace], extra: 
         'grammar_def': grammar_to_json(c.g),
         'grammar': c.g.proto_lines(),
         'grammar_cpp': [f"n{nid}: {nd.cpp} [{nd.flavour}]" for nid, nd in sorted(c.g.nodes.items())],
-        'config': {k: getattr(c.cfg, k) for k in ('root', 'a', 'm', 'eol', 'lazy', 'unwind', 'fam')},
+        'config': {k: getattr(c.cfg, k) for k in ('root', 'a', 'm', 'eol', 'lazy', 'unwind', 'fam', 'tree')},
         'init': list(c.init),
         'input_hex': c.data.hex(),
-        'observed': {'events': impl.events, 'result': impl.result, 'o': impl.o} if impl else None,
-        'model': {'events': model.events, 'result': model.result, 'o': model.o, 'surv': model.surv} if model else None,
+        'observed': {'events': impl.events, 'result': impl.result, 'o': impl.o, 'tree': impl.tree} if impl else None,
+        'model': {'events': model.events, 'result': model.result, 'o': model.o, 'surv': model.surv, 'tree': model.tree} if model else None,
     }
     d.update(extra)
     return d
@@ -294,6 +294,16 @@ def run_engine(prop: str, tier: str, lean_modules: List[str], profiles: List[Pro
             me = [l for l in m.events if filt(l)] if filt else m.events
             ie = [l for l in i.events if filt(l)] if filt else i.events
             agree = (me == ie and m.result == i.result and m.o == i.o)
+            if agree and c.cfg.tree and m.tree != i.tree:
+                agree = False
+            if c.cfg.tree:
+                ls = cov.setdefault('leaf_optimisation_side_condition', {'runs_checked': 0, 'violated': 0,
+                                    'meaning': "hypothesis leafOKT of C12_tree evaluated on the model's trace of this run (no selected rule is entered below a rule the model classifies is_leaf)"})
+                ls['runs_checked'] += 1
+                if m.leaf_sound != '1':
+                    ls['violated'] += 1
+                    if ls['violated'] == 1:
+                        v.broke(f"C12: the side condition of C12_tree (leaf optimisation sound) does not hold on the model trace of case {c.cid}")
             if agree and prof.compare_surv and compute_surv(i.events) != m.surv:
                 agree = False
             hits = []
